@@ -5,7 +5,7 @@
 From Coq Require Import ZArith List String Bool Sorting.Permutation.
 Import ListNotations.
 From TD Require Import Model.Keys Proofs.KeysP Model.C04_Tree Model.C04_Ops Model.C04_Views Model.C04_Step
-     Spec.C04_NestedDict Proofs.C04_AssocP Proofs.C04_CoreP Proofs.C04_RenameP Proofs.C04_UpdateP Proofs.C04_ViewsP Proofs.C04_FlattenP Proofs.C04_UnflattenP
+     Spec.C04_NestedDict Proofs.C04_AssocP Proofs.C04_CoreP Proofs.C04_RenameP Proofs.C04_UpdateP Proofs.C04_ViewsP Proofs.C04_FlattenP Proofs.C04_UnflattenP Proofs.C04_PrelimP Proofs.C04_SplitP
      Proofs.C04_HistP Proofs.C04_SpellP Proofs.C04_RefuteP.
 Open Scope string_scope.
 Open Scope list_scope.
@@ -116,6 +116,21 @@ Theorem C04_unflatten_refines : forall sep, sep <> "" -> forall ks es, wfE es ->
 Proof. exact unflatten_loop_refines. Qed.
 Print Assumptions C04_unflatten_refines.
 
+(* split_keys: key set after key set, pop from the remainder and set into a fresh dict; in place, self ends as the
+   filtered remainder.  No restriction on the keys out of place; in place the key list must be free of prefix pairs
+   (the code's epilogue iterates a python set, i.e. in hash order). *)
+Theorem C04_split_keys_refines : forall sets pss inplace strict dflt es,
+  traverse (traverse kp) sets = Some pss -> split_scope sets inplace ->
+  match split_keys sets inplace strict dflt es with
+  | (es', Ok outs) =>
+      exists rest souts, nd_split pss strict dflt (absE es) [] = Some (rest, souts)
+        /\ map absE outs = souts ++ [nd_filter_empty rest]
+        /\ absE es' = (if inplace then nd_filter_empty rest else absE es)
+  | (es', Raise _) => nd_split pss strict dflt (absE es) [] = None /\ es' = es
+  end.
+Proof. exact split_keys_refines. Qed.
+Print Assumptions C04_split_keys_refines.
+
 (* ------------------------------------------------------------------------------------------------------------
    4. views, for every include_nested x leaves_only x sort x is_leaf combination *)
 Theorem C04_items_view : forall inc lo so nt es,
@@ -184,8 +199,10 @@ Definition C04_refine_step_full_statement : Prop := forall es o so,
   | None => sr_err (step es o) <> None
   end.
 
-(* stated, not proved (the correspondence run checks it on every generated case): the remaining operation kinds refine
-   the nested dict on the domain on which a plain dict replay is determined — prefix-free key lists, strict select *)
+(* stated, not proved (the correspondence run checks it on every generated case): select and exclude refine the nested
+   dict on the domain on which a plain dict replay is determined — prefix-free key lists, strict select.  (The code groups
+   the keys by their first component and recurses per group; the dict replays them one after the other: the missing
+   argument is the commutation of deletions / insertions across groups.) *)
 Fixpoint prefix_free (ps : list (list string)) : Prop :=
   match ps with
   | [] => True
@@ -196,7 +213,6 @@ Definition in_scope_remaining (o : op) : Prop :=
   match o with
   | OSelect ks _ strict _ => strict = true /\ prefix_free (map strings ks)
   | OExclude ks _ _ => prefix_free (map strings ks)
-  | OSplit sets _ _ _ _ => prefix_free (map strings (List.concat sets))
   | _ => False
   end.
 
@@ -227,15 +243,15 @@ Definition ex_ops : list op :=
    OPop (KS "zz") (Some 5%Z); OSetDefault (KT [KS "q"; KS "r"]) (Node []); ODel (KS "a"); OFilterEmpty;
    ORename (KS "u") (KT [KS "u"; KS "t"]) false;                    (* new key under the old one (D42 fixed) *)
    OFlatten "." true false;                                         (* in place (D24 fixed) *)
-   OUnflatten "." true false].
+   OUnflatten "." true false;
+   OSplit [[KT [KS "u"; KS "t"; KS "v"; KS "w"]]; [KS "n"]] true false (Some 7%Z) (Some 0%nat)].   (* continue with the 1st result *)
 
 Example C04_ex_history :
   exists sops,
     Forall2 (fun o so => abs_op o = Some so /\ in_scope o /\ values_wf o) ex_ops sops
     /\ nd_ok (absE ex_tree) ex_ops sops
     /\ run ex_tree ex_ops =
-       [("n", Leaf LT 2%Z); ("s", Leaf LS 3%Z);
-        ("u", Node [("t", Node [("v", Node [("w", Leaf LS 4%Z); ("x", Leaf LT 5%Z)])])])].
+       [("u", Node [("t", Node [("v", Node [("w", Leaf LS 4%Z)])])])].
 Proof.
   eexists. split; [|split].
   - unfold ex_ops. repeat (apply Forall2_cons; [split; [reflexivity|split]|]); try apply Forall2_nil; cbn;
